@@ -194,6 +194,10 @@ rows:
 
 // ---- value-preserving wrappers that keep reduction rules from matching
 
+var c27Zero float64 // a variable: Go constant division by zero does not compile
+
+var c27InfWraps = []string{"div0", "negdiv0", "absdiv0", "negabsdiv0", "mulhuge", "pow", "div0", "shiftdiv0"}
+
 type c27Wrap struct {
 	kind  string // "sub0" "mul1" "abs" "paren" "neg"
 	inner c27Node
@@ -211,6 +215,20 @@ func (w *c27Wrap) text() string {
 		return "-" + w.inner.text()
 	case "subbig":
 		return "(" + w.inner.text() + " - 1700000000)"
+	case "div0":
+		return w.inner.text() + " / 0"
+	case "negdiv0":
+		return "-" + w.inner.text() + " / 0"
+	case "absdiv0":
+		return "abs(" + w.inner.text() + ") / 0"
+	case "negabsdiv0":
+		return "-abs(" + w.inner.text() + ") / 0"
+	case "shiftdiv0":
+		return "(" + w.inner.text() + " - 21) / 0"
+	case "mulhuge":
+		return w.inner.text() + " * 1e308"
+	case "pow":
+		return w.inner.text() + " ^ 1001"
 	}
 	return "(" + w.inner.text() + ")"
 }
@@ -226,6 +244,20 @@ func (w *c27Wrap) eval(ctx *c27RefCtx) []c27RefSeries {
 				in[i].vals[j] = -v
 			case "subbig":
 				in[i].vals[j] = v - 1700000000
+			case "div0":
+				in[i].vals[j] = v / c27Zero // 0/0 is NaN: a missing point from here on
+			case "negdiv0":
+				in[i].vals[j] = -v / c27Zero
+			case "absdiv0":
+				in[i].vals[j] = math.Abs(v) / c27Zero
+			case "negabsdiv0":
+				in[i].vals[j] = -math.Abs(v) / c27Zero
+			case "shiftdiv0":
+				in[i].vals[j] = (v - 21) / c27Zero
+			case "mulhuge":
+				in[i].vals[j] = v * 1e308
+			case "pow":
+				in[i].vals[j] = math.Pow(v, 1001)
 			}
 		}
 	}
@@ -250,7 +282,7 @@ func (o *c27OverTime) text() string {
 		case *c27Sel:
 			needParen = true
 		case *c27Wrap:
-			needParen = x.kind == "sub0" || x.kind == "mul1" || x.kind == "neg"
+			needParen = x.kind != "abs" && x.kind != "subbig" && x.kind != "paren"
 		}
 		if needParen {
 			arg = "(" + arg + ")"
@@ -292,11 +324,28 @@ func c27Quantile(phi float64, vs []float64) float64 {
 	rank := phi * (n - 1)
 	lo := math.Max(0, math.Floor(rank))
 	hi := math.Min(n-1, lo+1)
-	w := rank - math.Floor(rank)
-	return s[int(lo)]*(1-w) + s[int(hi)]*w
+	// lower*(1-weight) + upper*weight with weight = rank-lo written as 1-(hi-rank): with infinite
+	// values Inf*0 is NaN, so which term gets the zero weight is part of the definition
+	wLo := hi - rank
+	return s[int(lo)]*wLo + s[int(hi)]*(1-wLo)
 }
 
 const c27Eps = 2.220446049250313e-16
+
+// Two NaN payloads besides "no present point — not judged":
+//   c27ArithNaN  — points are present and the definition itself yields NaN (+Inf + -Inf, Inf*0 in
+//                  the quantile interpolation, variance of infinities): judged, the engine must
+//                  return NaN there.  Fed into an outer operator it is a missing point, as in the
+//                  engine (which has no other representation of "missing").
+//   c27ScopedNaN — present points, but a class the pinned engine is known to get wrong and that is
+//                  scoped out with a counter (see c27OverTime.eval).
+var (
+	c27ArithNaN  = math.Float64frombits(0x7ff8000000000a27)
+	c27ScopedNaN = math.Float64frombits(0x7ff8000000000b27)
+)
+
+func c27IsArithNaN(v float64) bool  { return math.Float64bits(v) == math.Float64bits(c27ArithNaN) }
+func c27IsScopedNaN(v float64) bool { return math.Float64bits(v) == math.Float64bits(c27ScopedNaN) }
 
 // c27VarTol: how far a correct (two-pass) population variance of vs may be from the exact one:
 // 1e-6 relative to the true result, plus the square of the rounding error of the mean
@@ -354,6 +403,7 @@ func (o *c27OverTime) eval(ctx *c27RefCtx) []c27RefSeries {
 		src := in[i].vals
 		dst := make([]float64, len(src))
 		dtol := make([]float64, len(src))
+		dmark := make([]bool, len(src)) // a point is present in the window
 		for t := range src {
 			if t-w+1 < 0 {
 				dst[t] = math.NaN() // window not inside the data
@@ -375,6 +425,7 @@ func (o *c27OverTime) eval(ctx *c27RefCtx) []c27RefSeries {
 				continue
 			}
 			dtol[t] = tolMax
+			dmark[t] = true
 			switch o.fn {
 			case "sum_over_time":
 				var s float64
@@ -421,6 +472,13 @@ func (o *c27OverTime) eval(ctx *c27RefCtx) []c27RefSeries {
 			default:
 				panic("c27: unknown over-time function " + o.fn)
 			}
+		}
+		for t := range dst {
+			if math.IsNaN(dst[t]) && dmark[t] {
+				dst[t] = c27ArithNaN
+			}
+			// min_over_time over a window of only +Inf points is +Inf (max_over_time / -Inf likewise):
+			// judged since the repair 54fda1bd (the engine used to start from ±MaxFloat64)
 		}
 		in[i].vals = dst
 		in[i].tol = dtol
@@ -580,6 +638,9 @@ func (a *c27AggNode) eval(ctx *c27RefCtx) []c27RefSeries {
 				}
 			default:
 				panic("c27: unknown aggregation " + a.op)
+			}
+			if math.IsNaN(out.vals[t]) {
+				out.vals[t] = c27ArithNaN // members are present
 			}
 		}
 		res = append(res, out)
